@@ -474,6 +474,53 @@ func c12(c *an.Ctx) {
 		wrapperRule(o, "(*DB).checkColumnValuesAgainstLimits", "checkColumnValuesAgainstLimit")
 	})
 
+	c.Check("R-POST", "the statement that is sent carries the filter that was checked: SelectOptions.IncludeFilter never returns success without having rendered the filter it was given into the options' WHERE clause (no 'already included' shortcut: the options value may have been used with another filter)", 1, func(o *an.O) {
+		fn := c.NeedFunc(sg, "(*SelectOptions).IncludeFilter")
+		var filterParam ssa.Value
+		for _, prm := range fn.Params {
+			if n := an.NamedOf(prm.Type()); n != nil && n.Obj().Name() == "Filter" {
+				filterParam = prm
+			}
+		}
+		an.Need(filterParam != nil, "Filter parameter of IncludeFilter")
+		var renders []ssa.Instruction
+		for _, g := range an.WithAnons(fn) {
+			an.Instrs(g, func(i ssa.Instruction) {
+				if cc := an.CallOf(i); cc != nil && g == fn {
+					for _, a := range cc.Args {
+						if a == filterParam {
+							renders = append(renders, i)
+						}
+					}
+				}
+			})
+		}
+		if len(renders) == 0 {
+			o.Fail(p.Pos(fn.Pos()), "IncludeFilter never looks at the filter it is given")
+			return
+		}
+		for _, r := range renders {
+			o.Site(r)
+		}
+		first := fn.Blocks[0].Instrs[0]
+		for _, r := range renders {
+			if r == first {
+				return // the very first thing the function does
+			}
+		}
+		reach := an.Reach(fn, first, an.NewBlocker(renders...))
+		reach[first] = true
+		for i := range reach {
+			ret, ok := i.(*ssa.Return)
+			if !ok || len(ret.Results) == 0 {
+				continue
+			}
+			if isConstNil(an.ResultAt(ret, len(ret.Results)-1)) {
+				o.FailAt(ret, "IncludeFilter can report success without rendering the filter it was given: the WHERE clause that is sent then comes from an earlier use of the same options value, while the limit check looked at this call's filter")
+			}
+		}
+	})
+
 	c.Check("R-SHAPE", "bulk writers cover every row: the chunk loop of InsertRows / UpsertRows starts at row 0, runs while the position is below len(rows), and each chunk begins at the loop position (a row outside every chunk is neither checked against the limits nor written, and the call still reports success)", 2, func(o *an.O) {
 		for _, nm := range []string{"(*DB).InsertRows", "(*DB).UpsertRows"} {
 			fn := c.NeedFunc(sg, nm)
